@@ -40,6 +40,7 @@ def from_callback_(
                         return
 
                     observer.on_next(results)
+                    observer.on_completed()
                 else:
                     if len(results) <= 1:
                         observer.on_next(*results)
